@@ -13,7 +13,9 @@ RULE = ("Histories of 1-8 add_file calls on an initially blank DiskFile (default
         "length = stream length (ML / BASIC headers); ML stream = 00 len load data FF 00 00 exec in chain order; every "
         "byte outside allocated granules, the FAT sector and the directory sectors equals both the fresh image of the "
         "same tree and $FF. Enumerated: single ML / BASIC / ASCII file of every length 2280..2320 and 4590..4620, on the "
-        "default order and on two permuted orders whose second granule is not physically adjacent. Non-trivial = a "
+        "default order and on two permuted orders whose second granule is not physically adjacent; lists that overflow "
+        "the disk. Every list is also handed to add_files as a whole: if that returns normally, what it leaves must "
+        "pass the same fsck. Non-trivial = a "
         "file of >= 2 granules, or a stream length within 10 of a multiple of 256 / 2304, or a non-default fill order, "
         "or a stream length congruent 2300..2303 mod 2304; distinct by case hash.")
 ASSUMPTIONS = [
@@ -34,6 +36,16 @@ def enumerated(tier, seed):
             for order in _ORDERS:
                 yield dict(order=order, files=[dict(name="F%d" % n, ext="BIN", kind=kind, ftype=ftype, dtype=dtype,
                                                     load=0x0E00, exec=0x0E10, data=dict(n=n, k=n, mode=0, head="", tail=""))])
+
+
+    # lists that overflow the disk while some granules are still free (through add_files, see execute)
+    def f(name, kind, n, k):
+        ftype, dtype = {"ml": (2, 0), "basic": (0, 0), "ascii": (0, 0xFF)}[kind]
+        return dict(name=name, ext="BIN", kind=kind, ftype=ftype, dtype=dtype, load=0x1000, exec=0x1000, data=dict(n=n, k=k, mode=0, head="", tail=""))
+    for order in _ORDERS[:2]:
+        yield dict(order=order, files=[f("BIG1", "ml", 60000, 1), f("BIG2", "ml", 60000, 2), f("BIG3", "ml", 60000, 3), f("SML1", "basic", 100, 4), f("SML2", "ascii", 3000, 5)])
+        yield dict(order=order, files=[f("A", "ascii", 65000, 1), f("B", "basic", 64000, 2), f("C", "ml", 30000, 3), f("D", "ml", 5000, 4)])
+        yield dict(order=order, files=[f("X%d" % i, "ml", 20000, i) for i in range(8)])
 
 
 def searches(tier):
@@ -97,4 +109,20 @@ def execute(case):
         if e.length != want:
             return viol("after add_file #{}: directory/FAT imply {} bytes, the stored stream is {}".format(idx, e.length, want),
                         fid="C08:implied-length", labels=labels)
+    # the whole list again through the container's add_files, including files that no longer fit: if the call returns
+    # normally the image it leaves behind is an image the tool would write, and must be a valid filesystem
+    if len(files) >= 2:
+        disk2 = DiskFile(granule_fill_order=list(case["order"]) if case["order"] else None)
+        datas = [filegen.expand(f["data"]) for f in files]
+        try:
+            disk2.add_files([filegen.to_coco(f, d) for f, d in zip(files, datas)])
+            returned = True
+        except Exception:
+            returned = False        # whether it must refuse is C15's subject
+        if returned:
+            labels = labels + ["add_files_returned"]
+            problems = dskref.fsck(disk2.get_buffer(), blank=blank)
+            if problems:
+                return viol("add_files of {} files returned normally and left: {}".format(len(files), "; ".join(problems[:3])),
+                            fid="C08:add_files:" + problems[0].split(":")[-1][:28], labels=labels)
     return ok(labels=labels, nontrivial=bool(labels))
